@@ -174,6 +174,7 @@ func main() {
 	profile := flag.String("profile", "", "force a generator profile")
 	jsonMode := flag.Bool("json", false, "flatten JSONL trace files given as arguments")
 	cpMode := flag.Bool("crashpoints", false, "crash at every step/ready event of the base schedules")
+	sleepW := flag.Float64("sleep", 0, "weight of the generator's sleeping-node events in every profile (0 = as configured)")
 	scName := flag.String("scenario", "", "run the directed scenario NAME (or all) instead of generated schedules")
 	flag.Parse()
 	f, err := os.Create(*out)
@@ -184,6 +185,12 @@ func main() {
 	defer f.Close()
 	w := bufio.NewWriterSize(f, 1<<20)
 	defer w.Flush()
+	if *sleepW > 0 {
+		for k, p := range raftdrv.Profiles {
+			p.Sleep = *sleepW
+			raftdrv.Profiles[k] = p
+		}
+	}
 	if *jsonMode {
 		for _, fn := range flag.Args() {
 			in, err := os.Open(fn)
